@@ -553,13 +553,13 @@ def _spec_kat(ctx, files, stride):
 def _hash_source(ctx):
     """TJ.Props.C11Gen: the terms REGENERATED from src/tinyjambu-hash.c (hash_update, hash_compress) compute the model's HState.update / compress"""
     import taint
-    ok, stats = taint.regenerate(ctx, ('TJ.Props.C11Gen',))
+    ok, stats = taint.regenerate(ctx, ('TJ.Props.C11Gen', 'TJ.Props.C10Gen'))
     ctx.extra_cov['minic'] = {k: stats.get(k) for k in ('functions', 'translated', 'errors', 'build_ok')}
     if stats.get('errors'): ctx.broken_proofs.append('tools/c2lean.py cannot translate the current sources: ' + '; '.join(stats['errors'][:3]))
-    elif not ok: ctx.broken_proofs.append('TJ.Props.C11Gen (regenerated tinyjambu_hash_update / tinyjambu_hash_compress = model HState.update / compress) no longer checks: ' + re.sub(r'\s+', ' ', stats.get('build_log_tail', ''))[-600:])
+    elif not ok: ctx.broken_proofs.append('TJ.Props.C11Gen / C10Gen (regenerated tinyjambu_hash, _init, _update, _finalize, _compress = model, = Spec.hash) no longer check: ' + re.sub(r'\s+', ' ', stats.get('build_log_tail', ''))[-600:])
 
 def check_C10(ctx):
-    ctx.build(['prod', 'san', 'gcc-Os']); _hash_source(ctx); ctx.lean(extra_modules=['TJ.Props.C11Gen'])
+    ctx.build(['prod', 'san', 'gcc-Os']); _hash_source(ctx); ctx.lean(extra_modules=['TJ.Props.C11Gen', 'TJ.Props.C10Gen'])
     ctx.equality_streams.update({'hash': 'TJ.Props.C10.hash_is_mdph', 'hash(matrix)': 'TJ.Props.C10.hash_is_mdph', 'h.histories': 'TJ.Props.C10.hash_is_mdph + TJ.Props.C11.streaming'})
     msgs = _hash_msgs(ctx)
     lines = ['hash %s' % ('NULL' if (len(m) == 0 and i % 2) else hx(m)) for i, m in enumerate(msgs)]
@@ -657,7 +657,7 @@ def _streaming_check(ctx, kind):
                      'init+updates+finalize differs from the one-shot function on the same message (last op is the one-shot call)', index=len(hist) - 1)
 
 def check_C11(ctx):
-    ctx.build(); _hash_source(ctx); ctx.lean(extra_modules=['TJ.Props.C11Gen'])
+    ctx.build(); _hash_source(ctx); ctx.lean(extra_modules=['TJ.Props.C11Gen', 'TJ.Props.C10Gen'])
     _streaming_check(ctx, 'h')
     if ctx.tier == 'thorough':
         # lengths that do not fit 32 bits (a long soak: about 90 s of hashing per case, both digests computed in parallel)
